@@ -160,9 +160,11 @@ func CheckAdmissionGrid(thorough bool) (extraResult, error) {
 		{"groups", []string{"1", "0", "2", u(uint64(cfg.MaxGroupCount)), u(uint64(cfg.MaxGroupCount) + 1)}},
 		{"dupname", []string{"no", "yes"}},
 		{"units", []string{"1", "0", "2", u(uint64(cfg.MaxGroupUnits)), u(uint64(cfg.MaxGroupUnits) + 1)}},
-		{"cpu", []string{u64(uint64(cfg.MinUnitCPU)), u64(uint64(cfg.MinUnitCPU) - 1), "0", "400", "401", u64(uint64(cfg.MaxUnitCPU)), u64(uint64(cfg.MaxUnitCPU) + 1), "9223372036854775808", "18446744073709551615", "18446744073709551616", "-1", "nil"}},
-		{"memory", []string{u64(cfg.MinUnitMemory), u64(cfg.MinUnitMemory - 1), "0", u64(cfg.MaxUnitMemory), u64(cfg.MaxUnitMemory + 1), "18446744073709551615", "18446744073709551626", "-1", "nil"}},
-		{"storage", []string{u64(cfg.MinUnitStorage), u64(cfg.MinUnitStorage - 1), "0", u64(cfg.MaxUnitStorage), u64(cfg.MaxUnitStorage + 1), "18446744073709551615", "-1", "nil"}},
+		// an additional, perfectly valid unit (cpu 200) next to the unit(s) under test: a negative or wrapped value can hide behind it in the group totals
+		{"extraunit", []string{"no", "yes"}},
+		{"cpu", []string{u64(uint64(cfg.MinUnitCPU)), u64(uint64(cfg.MinUnitCPU) - 1), "0", "400", "401", u64(uint64(cfg.MaxUnitCPU)), u64(uint64(cfg.MaxUnitCPU) + 1), "9223372036854775808", "18446744073709551615", "18446744073709551616", "-1", "-100", "nil"}},
+		{"memory", []string{u64(cfg.MinUnitMemory), u64(cfg.MinUnitMemory - 1), "0", u64(cfg.MaxUnitMemory), u64(cfg.MaxUnitMemory + 1), "18446744073709551615", "18446744073709551626", "-1", "-2097152", "nil"}},
+		{"storage", []string{u64(cfg.MinUnitStorage), u64(cfg.MinUnitStorage - 1), "0", u64(cfg.MaxUnitStorage), u64(cfg.MaxUnitStorage + 1), "18446744073709551615", "-1", "-10485760", "nil"}},
 		{"count", []string{"1", "0", "2", "3", u64(uint64(cfg.MaxUnitCount)), u64(uint64(cfg.MaxUnitCount) + 1), "4294967295"}},
 		{"price", []string{"1", "0", u64(cfg.MaxUnitPrice), u64(cfg.MaxUnitPrice + 1), "18446744073709551616"}},
 		{"pricedenom", []string{denom, "uatom"}},
@@ -195,6 +197,11 @@ func CheckAdmissionGrid(thorough bool) (extraResult, error) {
 			}
 			for ui := 0; ui < nUnits; ui++ {
 				g.Resources = append(g.Resources, unitRes)
+			}
+			if get("extraunit") == "yes" {
+				g.Resources = append(g.Resources, dtypes.Resource{Resources: types.ResourceUnits{
+					CPU: &types.CPU{Units: rv("200")}, Memory: &types.Memory{Quantity: rv(u64(8 * cfg.MinUnitMemory))}, Storage: &types.Storage{Quantity: rv(u64(8 * cfg.MinUnitStorage))}},
+					Count: 1, Price: sdk.Coin{Denom: denom, Amount: sdk.NewInt(1)}})
 			}
 			groups = append(groups, g)
 		}
